@@ -1748,6 +1748,25 @@ class Engine:
         if isinstance(cur, SymSeq) and isinstance(rhs, SymSeq) and op == "+" and not getattr(cur, "is_array", False):
             self.assign(st.target, self.seq_concat(cur, rhs), env)
             return
+        # numpy semantics: `a op= b` on an array updates the array object IN PLACE, so every alias (an attribute of another object,
+        # a second local name) sees the change; rebinding the name would hide "in-place modification of a shared array"
+        if isinstance(cur, Vec):
+            new = self.arith(op, Vec(list(cur.items)), rhs, st)
+            if isinstance(new, Vec) and len(new.items) == len(cur.items):
+                cur.items[:] = new.items
+                self.assign(st.target, cur, env)
+                return
+            self.assign(st.target, new, env)
+            return
+        if getattr(cur, "is_array", False) and hasattr(cur, "elem"):
+            snapshot = type(cur)(cur.length, cur.elem, getattr(cur, "label", "arr"))
+            new = self.arith(op, snapshot, rhs, st)
+            if type(new) is type(cur):
+                cur.elem = new.elem
+                self.assign(st.target, cur, env)
+                return
+            self.assign(st.target, new, env)
+            return
         self.assign(st.target, self.arith(op, cur, rhs, st), env)
 
     def seq_concat(self, a, b):
